@@ -111,6 +111,13 @@ def _check_size_setter(res, index, cls, name, fn, scratch):
                 res.bad("GUARD-1", label + ":nonstrict", where,
                         f"{label}.setter accepts 0: its only positivity test is non-strict (>=) but the property is not a rounding radius",
                         cls=cls.name, setter=name)
+        if g.nan_writes and not g.unguarded_writes:
+            ev = g.nan_writes[0]
+            res.bad("GUARD-4", label + ":nan", ev.where(), f"{label}.setter reaches the state write `{ev.src()[:60]}` for a NaN target: its positivity test is "
+                    "written as a refusal (`if value <= 0: raise`), which NaN passes because every comparison with NaN is false; the shape is left "
+                    f"with non-finite geometry and no ValueError is raised (path {' -> '.join(ev.path)})")
+        elif not g.unguarded_writes:
+            res.ok("GUARD-4", label, nontrivial=False)
         if g.silent_rejects:
             res.bad("GUARD-3", label, where, f"{label}.setter falls through silently on a non-positive target instead of raising ValueError")
         elif g.wrong_exc:
